@@ -145,7 +145,16 @@ pub fn priors(kind: Kind, small: bool) -> Vec<Prior> {
 }
 
 pub fn batches(max_len: usize) -> Vec<Vec<OpT>> {
-    let a = alphabet();
+    batches_over(alphabet(), max_len)
+}
+
+/// The operations of the alphabet that touch task 1 only: longer batches on one task (update,
+/// delete, re-create, update again ... inside one commit) stay affordable on SQLite.
+pub fn single_task_alphabet() -> Vec<OpT> {
+    alphabet().into_iter().filter(|o| matches!(o, OpT::Create(1) | OpT::Delete(1) | OpT::Upd(1, _, _))).collect()
+}
+
+pub fn batches_over(a: Vec<OpT>, max_len: usize) -> Vec<Vec<OpT>> {
     let mut out: Vec<Vec<OpT>> = vec![];
     let mut level: Vec<Vec<OpT>> = vec![vec![]];
     for _ in 0..max_len {
@@ -302,8 +311,12 @@ pub fn check_case_with(p: &Prior, batch: &[OpT], fault_at: &dyn Fn(usize, &str) 
 }
 
 fn run_kind(rep: &Report, kind: Kind, max_len: usize, small_priors: bool, faults_upto: usize) {
+    run_kind_over(rep, kind, max_len, small_priors, faults_upto, false)
+}
+
+fn run_kind_over(rep: &Report, kind: Kind, max_len: usize, small_priors: bool, faults_upto: usize, single_task: bool) {
     let ps = priors(kind, small_priors);
-    let bs = batches(max_len);
+    let bs = if single_task { batches_over(single_task_alphabet(), max_len).into_iter().filter(|b| b.len() == max_len).collect() } else { batches(max_len) };
     let cases: Vec<(usize, usize)> = (0..ps.len()).flat_map(|i| (0..bs.len()).map(move |j| (i, j))).collect();
     let capped = std::sync::atomic::AtomicBool::new(false);
     let results: Vec<_> = cases
@@ -344,7 +357,7 @@ fn run_kind(rep: &Report, kind: Kind, max_len: usize, small_priors: bool, faults
     rep.add("states", ps.len() as u64);
     rep.add("transitions", cases.len() as u64 + fault_runs);
     rep.add("traces_validated_against_impl", cases.len() as u64);
-    rep.set(&format!("storage_{kind:?}"), json!({"prior_states": ps.len(), "batches": bs.len(), "max_batch_len": max_len, "cases": cases.len(), "fault_runs": fault_runs, "with_invalid_operation": nontrivial}));
+    rep.set(&format!("storage_{kind:?}{}", if single_task { format!("_single_task_len{max_len}") } else { String::new() }), json!({"prior_states": ps.len(), "batches": bs.len(), "max_batch_len": max_len, "cases": cases.len(), "fault_runs": fault_runs, "with_invalid_operation": nontrivial}));
     rep.sample(json!({"storage": format!("{kind:?}"), "prior": ps[ps.len() / 2].name, "batch": bs[bs.len() / 2]}));
     println!("[C05] {kind:?}: {} priors x {} batches (len<={max_len}) = {} cases, {fault_runs} fault runs, {nontrivial} with an invalid operation ({:.1}s)", ps.len(), bs.len(), cases.len(), rep.elapsed());
 }
@@ -352,13 +365,19 @@ fn run_kind(rep: &Report, kind: Kind, max_len: usize, small_priors: bool, faults
 pub fn run(opts: &Opts) -> i32 {
     let rep = Report::new("C05", "model_checking", opts);
     rep.set("exhaustive", true);
-    rep.set("rule", "case = prior replica state (T1,T2 each absent / empty / with a property, unsynced or synced) x every batch over {Create, Update p=a, Update p=absent, Delete} x {T1,T2} + status=pending + UndoPoint up to the length bound, valid or not; each executed through the real Replica::commit_operations on the in-memory and the SQLite storage; oracles: reference model one-at-a-time, batch-vs-single differential, operation log = old log + batch, tasks = base + pending, and for every storage call index an injected error must leave the whole observable state unchanged; plus batches of 1200 (thorough 5000) operations with an injected error at every storage call (SQLite: every transaction boundary + every 97th call); non-trivial = batches containing an operation that is invalid where it is applied");
+    rep.set("rule", "case = prior replica state (T1,T2 each absent / empty / with a property, unsynced or synced) x every batch over {Create, Update p=a, Update p=absent, Delete} x {T1,T2} + status=pending + UndoPoint up to the length bound, valid or not (SQLite: all batches up to length 2-3, plus every batch of exactly 4 (thorough 5) operations on one task); each executed through the real Replica::commit_operations on the in-memory and the SQLite storage; oracles: reference model one-at-a-time, batch-vs-single differential, operation log = old log + batch, tasks = base + pending, and for every storage call index an injected error must leave the whole observable state unchanged; plus batches of 1200 (thorough 5000) operations with an injected error at every storage call (SQLite: every transaction boundary + every 97th call); non-trivial = batches containing an operation that is invalid where it is applied");
     let q = opts.tier == Tier::Quick;
     run_kind(&rep, Kind::Mem, if q { 4 } else { 5 }, false, if q { 3 } else { 4 });
     run_kind(&rep, Kind::Sqlite, if q { 2 } else { 3 }, q, 2);
     if q {
         // length-3 batches on a few SQLite priors
         run_kind(&rep, Kind::Sqlite, 3, true, 0);
+    }
+    // longer batches on ONE task (update, delete, re-create, update again inside one commit): all
+    // batches of exactly 4 (thorough: and 5) operations over the five task-1 operations, SQLite
+    run_kind_over(&rep, Kind::Sqlite, 4, true, 0, true);
+    if !q {
+        run_kind_over(&rep, Kind::Sqlite, 5, true, 0, true);
     }
     // very large batches: still one atomic commit whatever the size (in memory: an error at every
     // storage call; SQLite: at every transaction begin/commit call and every 97th other call)
